@@ -88,8 +88,10 @@ class Def(object):
 
 
 class Flow(object):
-    def __init__(self, fn, pure_self_methods=(), pure_calls=()):
+    def __init__(self, fn, pure_self_methods=(), pure_calls=(),
+                 consts=None):
         self.fn = fn
+        self.consts = consts      # callable: dotted global name -> int/None
         self.cfg = cfg_of(fn)
         self.pure_self = set(pure_self_methods)
         self.pure_calls = set(pure_calls) | PURE_FUNCS
@@ -361,6 +363,10 @@ class Flow(object):
                         for i in ids))
                     return self._atom(name,
                                       set(self.defs[i].node.id for i in ids))
+            if self.consts is not None and var.split(".")[0] not in rd:
+                c = self.consts(var)
+                if isinstance(c, int) and not isinstance(c, bool):
+                    return Poly.const(c)
             return self._atom(var, {self.cfg.entry.id})
         ids = sorted(rd[var])
         ds = [self.defs[i] for i in ids]
